@@ -323,3 +323,84 @@ fn c03_u2_arg_iter() {
     }
     std::mem::forget(m);
 }
+
+// C01 L3: iterator plumbing, storage framing: g0 garbage (bytes != 'D'), min msg, g1 garbage, min msg, g2 garbage
+fn l3_storage<const G0: usize, const G1: usize, const G2: usize, const N: usize>() {
+    let mut data: [u8; N] = kani::any();
+    let m0 = G0;
+    let m1 = G0 + 20 + G1;
+    assert!(m1 + 20 + G2 == N);
+    let mut i = 0;
+    while i < N {
+        let in_msg = (i >= m0 && i < m0 + 20) || (i >= m1 && i < m1 + 20);
+        if !in_msg { kani::assume(data[i] != b'D'); }
+        i += 1;
+    }
+    for &m in [m0, m1].iter() {
+        data[m] = b'D'; data[m + 1] = b'L'; data[m + 2] = b'T'; data[m + 3] = 1;
+        // header bytes 4..16 free except they must not contain 'D' (keeps "marker only at message start")
+        let mut j = 4;
+        while j < 20 { kani::assume(data[m + j] != b'D'); j += 1; }
+        data[m + 16] = 0x20; data[m + 18] = 0; data[m + 19] = 4;
+    }
+    let start: u32 = kani::any();
+    kani::assume(start < 1_000_000);
+    let mut it = DltMessageIterator::new(start, &data[..]);
+    let a = it.next();
+    assert!(a.is_some());
+    assert_eq!(a.as_ref().unwrap().index, start);
+    assert_eq!(it.bytes_skipped, G0);
+    assert_eq!(it.bytes_processed, G0 + 20);
+    let b = it.next();
+    assert!(b.is_some());
+    assert_eq!(b.as_ref().unwrap().index, start + 1);
+    assert_eq!(b.as_ref().unwrap().standard_header.mcnt, data[m1 + 17]);
+    assert_eq!(it.bytes_skipped, G0 + G1);
+    let c = it.next();
+    assert!(c.is_none());
+    assert!(it.bytes_processed <= N);
+    assert!(N - it.bytes_processed < 20);
+    assert_eq!(it.index, start + 2);
+    assert!(it.detected_storage_header && !it.detected_serial_header);
+    std::mem::forget(a); std::mem::forget(b);
+}
+
+#[kani::proof]
+#[kani::unwind(50)]
+#[kani::stub(alloc::fmt::format, fmt_stub)]
+fn c01_l3_storage_2_1_3() { l3_storage::<2, 1, 3, { 2 + 20 + 1 + 20 + 3 }>(); }
+
+// C01 L3b: one next() from an arbitrary iterator state after storage framing was detected
+#[kani::proof]
+#[kani::unwind(30)]
+#[kani::stub(alloc::fmt::format, fmt_stub)]
+fn c01_l3b_step_after_detection() {
+    const G: usize = 3;
+    const T: usize = 2;
+    const N: usize = G + 20 + T;
+    let mut data: [u8; N] = kani::any();
+    let mut i = 0;
+    while i < N { if i < G || i >= G + 4 { kani::assume(data[i] != b'D'); } i += 1; }
+    data[G] = b'D'; data[G + 1] = b'L'; data[G + 2] = b'T'; data[G + 3] = 1;
+    data[G + 16] = 0x20; data[G + 18] = 0; data[G + 19] = 4;
+    let start: u32 = kani::any();
+    kani::assume(start < u32::MAX - 1);
+    let bp: usize = kani::any();
+    let bs: usize = kani::any();
+    kani::assume(bs <= bp && bp < 1_000_000_000);
+    let mut it = DltMessageIterator::new(start, &data[..]);
+    it.detected_storage_header = true;
+    it.bytes_processed = bp;
+    it.bytes_skipped = bs;
+    let a = it.next();
+    assert!(a.is_some());
+    assert_eq!(a.as_ref().unwrap().index, start);
+    assert_eq!(it.index, start + 1);
+    assert_eq!(it.bytes_skipped, bs + G);
+    assert_eq!(it.bytes_processed, bp + G + 20);
+    assert!(it.detected_storage_header && !it.detected_serial_header);
+    let b = it.next();
+    assert!(b.is_none());
+    assert_eq!(it.bytes_processed, bp + G + 20); // short tail stays unconsumed
+    std::mem::forget(a);
+}
